@@ -206,6 +206,20 @@ class Check(Property):
                       ("3 meter per second squared", "3*meter/second**2"), ("1,000 meter", "1000*meter")]:
             self.bump("word forms")
             out.append(self.with_ops({"kind": "word", "s": s, "eq": eq}))
+        # word forms next to parentheses, numbers ending in a point, chains
+        names = ["meter", "second", "kilogram", "kelvin", "ampere", "mole", "joule", "watt", "newton", "hour"]
+        for _ in range(60 if self.tier == "quick" else 1500):
+            A, B, C = rng.sample(names, 3)
+            n1, n2 = rng.randint(2, 9), rng.randint(2, 9)
+            s, eq = rng.choice([
+                (f"{A} per ({B} {C})", f"{A}/({B}*{C})"), (f"({A} {B}) per {C}", f"({A}*{B})/{C}"),
+                (f"({n1} {A}) per ({n2} {B})", f"({n1}*{A})/({n2}*{B})"), (f"{n1}. per {B}", f"{n1}./{B}"),
+                (f"{A} per {B} per {C}", f"{A}/{B}/{C}"), (f"{A} squared per ({B} cubed)", f"{A}**2/({B}**3)"),
+                (f"({A} {B} squared) per ({C} cubed)", f"({A}*{B}**2)/({C}**3)"), (f"cubic {A} per {B}", f"{A}**3/{B}"),
+                (f"{A}² per ({B} {C})", f"{A}**2/({B}*{C})"), (f"{n1} {A} per ({B} squared)", f"{n1}*{A}/({B}**2)"),
+                (f"sq {A} per ({n2} {B})", f"{A}**2/({n2}*{B})")])
+            self.bump("word forms")
+            out.append(self.with_ops({"kind": "word", "s": s, "eq": eq}))
         return out
 
     # ------------------------------------------------------------------ token stream + tree
